@@ -763,3 +763,53 @@ def sp_is_neg_inf(I, st, args, kwargs):
 def sp_finite(I, st, args, kwargs):
     v = args[0]
     return VBool(v.inf == 0 if getattr(v, 'inf', None) is not None else True)
+
+
+# ----------------------------------------------------------------------------- presets / opaque string helpers (C12)
+def _ps(I):
+    return I.stubs._psym()
+
+
+@spec('pd_has')
+def sp_pd_has(I, st, args, kwargs):
+    return VBool(_ps(I)['PD_HAS'](args[0].t, args[1].t))
+
+
+@spec('pd_val')
+def sp_pd_val(I, st, args, kwargs):
+    return VStr(_ps(I)['PD_VAL'](args[0].t, args[1].t))
+
+
+@spec('vault_has')
+def sp_vault_has(I, st, args, kwargs):
+    d = _ps(I)
+    ns, k = args
+    pd = d['VAULT_GET'](ns.t)
+    return VBool(z3.And(d['VAULT_KNOWN'](ns.t), d['PD_HAS'](pd, k.t)))
+
+
+@spec('vault_val')
+def sp_vault_val(I, st, args, kwargs):
+    d = _ps(I)
+    return VStr(d['PD_VAL'](d['VAULT_GET'](args[0].t), args[1].t))
+
+
+@spec('split_part')
+def sp_split_part(I, st, args, kwargs):
+    s_, sep, j = args
+    return VStr(_ps(I)['SPLIT_PART'](s_.t, sep.t, to_term(j, 'int')))
+
+
+@spec('split_count')
+def sp_split_count(I, st, args, kwargs):
+    return VInt(_ps(I)['SPLIT_COUNT'](args[0].t, args[1].t))
+
+
+@spec('str_replace')
+def sp_str_replace(I, st, args, kwargs):
+    return VStr(_ps(I)['REPLACE'](args[0].t, args[1].t, args[2].t))
+
+
+@spec('parse_float')
+def sp_parse_float(I, st, args, kwargs):
+    return VReal(_ps(I)['PFLOAT'](args[0].t))
